@@ -118,3 +118,68 @@ def replay_counterexample(r, prop):
     res = tlc.validate_traces([case], props=[prop], shards=1)
     fails = [f for f in res["fails"] if f["clause"].startswith(prop + ".")]
     return {"reproduced": bool(fails), "fails": fails, "case": case}
+
+
+# ---------------------------------------------------------------------------------------
+def spec_runs(pairs, chunks=16):
+    """The runs of the *specification* on the given (cfg, opts) pairs, in the format of recorded
+    cases (Gen_SpecRun.tla exports RunRecordF: phase events, return value, final state and logs).
+    They can be validated with TracePdesy exactly like runs of the code."""
+    from concurrent.futures import ThreadPoolExecutor
+
+    if not pairs:
+        return []
+    cfgs = []
+    for i, (cfg, opts) in enumerate(pairs):
+        c = json.loads(json.dumps(cfg))
+        o = {k: opts[k] for k in ("absL", "autoAbs", "rule", "maxTime", "unit") if k in opts}
+        c["opts"] = dict(c["opts"], **o)
+        c["id"] = "specrun%d" % i
+        cfgs.append(c)
+    n = max(1, min(chunks, len(cfgs)))
+    parts = [cfgs[i::n] for i in range(n)]
+    wd = tlc.workdir("specrun")
+
+    def one(j):
+        sd = os.path.join(wd, "p%d" % j)
+        os.makedirs(sd)
+        cf, out, cfgf = os.path.join(sd, "cfgs.json"), os.path.join(sd, "out.ndjson"), os.path.join(sd, "gen.cfg")
+        with open(cf, "w") as f:
+            json.dump(parts[j], f)
+        with open(cfgf, "w") as f:
+            f.write("INIT Init\nNEXT Next\nCHECK_DEADLOCK FALSE\n")
+        rc, o = tlc.run_tlc("Gen_SpecRun", cfgf, sd, env={"CFG_FILE": cf, "OUT_FILE": out}, workers=1,
+                            timeout=3000, heap="4g")
+        if rc != 0 or not os.path.exists(out):
+            raise tlc.MachineryError("export of specification runs failed:\n%s" % o[-2000:])
+        with open(out) as f:
+            return [json.loads(line) for line in f if line.strip()]
+
+    try:
+        with ThreadPoolExecutor(max_workers=n) as ex:
+            recs = [r for part in ex.map(one, range(n)) for r in part]
+    finally:
+        shutil.rmtree(wd, ignore_errors=True)
+    by_id = {r["id"]: r for r in recs}
+    cases = []
+    for c in cfgs:
+        r = by_id[c["id"]]
+        ev = [dict(e, inexact=[]) for e in r["ev"]]
+        o2 = dict(c["opts"], initState=True, initLog=True)
+        run = {"op": "simulate", "opts": o2, "args": {"cmp": 0, "plainTasks": False}, "obs": {},
+               "ev": drive.annotate(ev), "ret": r["ret"],
+               "final": {"st": r["final"]["st"], "lg": r["final"]["lg"], "inexact": []}}
+        cases.append({"cfg": c, "runs": [run], "spec": {"kind": "specrun", "cfg": c}})
+    return cases
+
+
+def spec_falsifies(pairs, prop):
+    """For each (cfg, opts): the set of clauses of `prop` that the specification's own run
+    falsifies (plus the L2.* clauses, which must be empty: the run conforms to itself)."""
+    cases = spec_runs(pairs)
+    res = tlc.validate_traces(cases, props=[prop], shards=16)
+    out = [set() for _ in pairs]
+    idx = {c["cfg"]["id"]: i for i, c in enumerate(cases)}
+    for f in res["fails"]:
+        out[idx[f["case"]]].add(f["clause"])
+    return out
